@@ -241,7 +241,12 @@ func checkTransition(R []*mocrelay.Event, e *mocrelay.Event, added bool, R2 []*m
 		}
 	}
 	eGone := after[e.ID] == nil
-	if eGone {
+	if eGone && !selfReferencing(e) {
+		// (a deletion request that names itself: the statement both removes what
+		// it references and keeps the request; the code, and its own unit test
+		// "delete oneself", remove it. Left open here - what stays checked is that
+		// once it is gone it suppresses nothing, since suppression is computed
+		// from retained requests only)
 		unjust = append(unjust, e)
 	}
 	for id := range after {
@@ -265,11 +270,27 @@ func checkTransition(R []*mocrelay.Event, e *mocrelay.Event, added bool, R2 []*m
 		}
 		if x == e {
 			c = "accepted-but-not-stored"
+			if e.Kind == 5 {
+				p, c = "C05", "deletion-request-not-kept"
+			}
 		}
 		out = append(out, cacheFinding{p, c, at, fmt.Sprintf("after accepting %s (author %s), %s (author %s, created_at %d) left the store although it is neither an older version of the same address, nor a target of a deletion request of its author, nor the oldest event at full capacity (|R'|=%d, cap=%d)",
 			ref.Short(e.ID), ref.Short(e.Pubkey), ref.Short(x.ID), ref.Short(x.Pubkey), x.CreatedAt, len(R2), capacity)})
 	}
 	return out
+}
+
+// selfReferencing says whether a deletion request names its own id in an e tag.
+func selfReferencing(e *mocrelay.Event) bool {
+	if e.Kind != 5 {
+		return false
+	}
+	for _, tag := range e.Tags {
+		if len(tag) >= 2 && tag[0] == "e" && tag[1] == e.ID {
+			return true
+		}
+	}
+	return false
 }
 
 func refTagOf(d, t *mocrelay.Event) string {
